@@ -321,7 +321,9 @@ def mapR (f : Int → Int) (x : Option (St × Out)) : Option (St × Out) := x.ma
 
 theorem alloc_map (s : St) : (mapSt f s).alloc = (s.alloc.1, mapSt f s.alloc.2) := by
   unfold St.alloc mapSt
-  cases s.free <;> rfl
+  cases s.free with
+  | cons i rest => rfl
+  | nil => simp only; cases blockItems (ipbOf s.multi * s.blocks) (ipbOf s.multi) <;> rfl
 
 section
 variable (hf : Mono f)
